@@ -192,6 +192,11 @@ func runBundle(base string, c *mCase) (obs *mObs) {
 				outsidePaths = append(outsidePaths, filepath.Join(root, v, "sub"))
 			}
 		}
+		// siblings of the bundle root whose names merely extend the root's name (by the package directory name, or by
+		// anything) are outside
+		if pk.Local != "" && !strings.ContainsAny(pk.Local, "/\\") && pk.Local != "." && pk.Local != ".." {
+			outsidePaths = append(outsidePaths, root+pk.Local, root+pk.Local+"/sub/main.tf", root+"x/"+pk.Local+"/sub")
+		}
 	}
 	for _, p := range append(outsidePaths, []string{root, filepath.Dir(root), filepath.Join(root, "nosuchdir", "x"), filepath.Join(root, "..", "elsewhere"), "/", filepath.Join(root, "terraform-sources.json-not")}...) {
 		if _, err := bundle.SourceForLocalPath(p); err == nil {
